@@ -124,27 +124,41 @@ var childMapNames = map[string]bool{"childCollections": true, "childSegStacks": 
 
 // childKeyOf: if v is an element of a child map (lookup or range value),
 // return the map field and the key SSA value.
+// childMapOf: the child-map field a map value stands for: a load of the field, or a local that holds either such
+// a load or nil (`var m map[..]; if x != nil { m = x.ChildFooters }`).
+func childMapOf(v ssa.Value) *types.Var {
+	var out *types.Var
+	for _, og := range origins(v) {
+		if isNilConst(og) {
+			continue
+		}
+		fv, _ := loadedField(og)
+		if fv == nil || !childMapNames[fv.Name()] || (out != nil && out != fv) {
+			return nil
+		}
+		out = fv
+	}
+	return out
+}
+
 func childKeyOf(v ssa.Value) (mapField *types.Var, key ssa.Value, ok bool) {
 	switch x := v.(type) {
 	case *ssa.Lookup:
-		fv, _ := loadedField(x.X)
-		if fv != nil && childMapNames[fv.Name()] {
+		if fv := childMapOf(x.X); fv != nil {
 			return fv, x.Index, true
 		}
 	case *ssa.Extract:
 		switch t := x.Tuple.(type) {
 		case *ssa.Lookup: // v, ok := m[k]
 			if x.Index == 0 {
-				fv, _ := loadedField(t.X)
-				if fv != nil && childMapNames[fv.Name()] {
+				if fv := childMapOf(t.X); fv != nil {
 					return fv, t.Index, true
 				}
 			}
 		case *ssa.Next: // for k, v := range m
 			if x.Index == 2 {
 				if rg, isR := t.Iter.(*ssa.Range); isR {
-					fv, _ := loadedField(rg.X)
-					if fv != nil && childMapNames[fv.Name()] {
+					if fv := childMapOf(rg.X); fv != nil {
 						return fv, rangeKey(t), true
 					}
 				}
